@@ -77,7 +77,7 @@ CLAIMED = {
          "DESIGN.md 4/C15"),
  "C19": ("property-based testing with URLs assembled from generated components (expected decoding known by construction) through a cfg(amiquip_verif) hook; loopback TCP sessions for the end-to-end half",
          "Exploration: every assembled URL must decode to the components it was built from (or to one of the specific errors its defects allow); Connection::open must reject every decodable amqp:// URL with InsecureUrl; sampled loopback connections must present the URL's credentials, vhost and tuning.",
-         "Hook: amiquip::verif::decode_url. Ambiguous shapes are not generated (explicitly empty user/password, dot path segments, '+'-signed numbers, trailing-slash paths, spellings of external other than 'external').",
+         "Hook: amiquip::verif::decode_url. Ambiguous shapes are not generated (explicitly empty user/password, dot path segments, '+'-signed numbers, trailing-slash paths, spellings of external other than 'external'). The loopback part names its broker as 127.0.0.1, as [::1] where an IPv6 loopback exists, and by a host name with three addresses where the harness can bind its own DNS responder on 127.0.0.1:53 (the sandbox's resolv.conf points there; the socket lives only as long as the check process); otherwise these cases fall back to 127.0.0.1 and say so in their class label.",
          "DESIGN.md 4/C19"),
  "C02": ("property-based testing (proptest strategies, custom runner) of the real client on a mock transport; oracle = independent envelope parser + field-by-field comparison with the publish arguments",
          "Exploration: generated publishes (all frame_max pairs, boundary body lengths, arbitrary properties/flags, optionally a fragmenting transport) run end-to-end through the real I/O thread; the decoded wire must equal the reference framing of every publish. A second part publishes while the server cancels consumers of the publishing channel, so that the I/O thread writes CancelOk on it: no such frame may stand inside a publish. Bounded sampling, no proof.",
